@@ -20,6 +20,8 @@ type Req struct {
 	Header map[string]string `json:"header,omitempty"` // single-valued headers
 	Body   string            `json:"body,omitempty"`
 	Fault  *BodyFault        `json:"fault,omitempty"`
+	// Chunked: the body arrives without an announced length (Transfer-Encoding: chunked; ContentLength -1)
+	Chunked bool `json:"chunked,omitempty"`
 }
 
 // BodyFault makes the request body fail after N bytes, delivered in the given chunks.
@@ -44,6 +46,9 @@ func (r Req) String() string {
 	}
 	if r.Fault != nil {
 		s += fmt.Sprintf(" fault=%v@%d/%s", r.Fault.Chunks, r.Fault.FailAt, r.Fault.Err)
+	}
+	if r.Chunked {
+		s += " chunked"
 	}
 	return s
 }
@@ -150,6 +155,11 @@ func (q Req) Build() (*http.Request, context.CancelFunc) {
 			r.Body = fr
 		}
 		r.ContentLength = -1
+	} else if q.Chunked && q.Body != "" {
+		// hide the length from net/http, as a chunked upload does
+		r.Body = io.NopCloser(struct{ io.Reader }{strings.NewReader(q.Body)})
+		r.ContentLength = -1
+		r.TransferEncoding = []string{"chunked"}
 	}
 	return r, cancel
 }
